@@ -17,6 +17,7 @@ import (
 	"encoding/json"
 	"fmt"
 	"sort"
+	"strings"
 
 	"github.com/ccbrown/api-fu/graphql"
 	"github.com/ccbrown/api-fu/graphql/schema/introspection"
@@ -45,7 +46,7 @@ func (rq *request) observe(s *side) sexp.Node {
 		return sexp.L(o.sexp(true, false))
 	case "chain":
 		return sexp.L(o.sexp(true, false), sexp.T("lines", o.errorLines().List...), sexp.T("final", o.chainFinal(chainKeys(rq.chain))))
-	case "sdoc":
+	case "sdoc", "ssub":
 		return sexp.L(o.sexp(true, false), sexp.T("lines", o.errorLines().List...), o.tree(rq.sdoc.tkeys))
 	}
 	return sexp.L(o.sexp(true, false))
@@ -61,6 +62,8 @@ func (rq *request) sexp(a, b *side) sexp.Node {
 		items = append(items, sexp.T("query", sexp.Str(rq.query)), sexp.T("chain", chainSexp(rq.chain).List...))
 	case "sdoc":
 		items = append(items, sexp.T("query", sexp.Str(rq.query)), rq.sdoc.sexp())
+	case "ssub": // every source stream of the apifu schema delivers two events
+		items = append(items, sexp.T("query", sexp.Str(rq.query)), rq.sdoc.sexp(), sexp.T("events", sexp.Int(2)))
 	case "doc":
 		items = append(items, sexp.T("query", sexp.Str(rq.query)), sexp.T("vars", sexp.Str(varsJSON(rq.vars))), sexp.T("tags", strs(rq.tags)...))
 	}
@@ -129,27 +132,40 @@ func runCase(kind, note string, d *desc, F []string, mk func() []*request) sexp.
 
 // the apifu route (see apifu.go)
 func runApifuCase(F []string, route string) sexp.Node {
-	ws := route == "graphql-ws" || route == "graphql-transport-ws"
-	d := apifuDesc()
+	subs := strings.HasSuffix(route, "+subscriptions")
+	proto := strings.TrimSuffix(route, "+subscriptions")
+	ws := proto == "graphql-ws" || proto == "graphql-transport-ws"
+	d := apifuDesc(subs)
 	e := erase(d, F)
 	head := []sexp.Node{sexp.T("kind", sexp.Sym("apifu")), sexp.T("note", sexp.Str(route)), d.sexp(), sexp.T("features", strs(F)...),
 		sexp.T("all", strs(alphabet)...)}
 	on := subset([]string{"fa"}, F)
 	all := graphql.NewFeatureSet(alphabet...)
 	logA, logB, logC := &calls{}, &calls{}, &calls{}
-	apiA, err := apifuAPI(true, false, logA)
+	apiA, err := apifuAPI(true, false, subs, logA)
 	if err != nil {
 		return sexp.T("case", append(head, sexp.T("accepted", sexp.Bool(false)))...)
 	}
 	head = append(head, sexp.T("accepted", sexp.Bool(true)), sexp.T("erased", e.sexp()))
-	apiB, err := apifuAPI(on, true, logB)
+	apiB, err := apifuAPI(on, true, subs, logB)
 	if err != nil {
 		return sexp.T("case", append(head, sexp.T("erased-rejected", sexp.Str(err.Error())))...)
 	}
 	a := &side{api: apiA, features: graphql.NewFeatureSet(F...), log: logA, persisted: route == "http-persisted"}
 	b := &side{api: apiB, features: all, log: logB, persisted: route == "http-persisted"}
 	if ws {
-		a.ws, b.ws = openWS(apiA, a.features, route), openWS(apiB, b.features, route)
+		// with subscriptions: the environment changes right after the connection is acknowledged (side
+		// a: to every feature, or to none when it had them all; side b: to none) — the code takes
+		// Config.Features once, at connection_init, for the whole connection
+		var laterA, laterB *graphql.FeatureSet
+		if subs {
+			none := graphql.NewFeatureSet()
+			laterA, laterB = &all, &none
+			if len(F) == len(alphabet) {
+				laterA = &none
+			}
+		}
+		a.ws, b.ws = openWS(apiA, a.features, proto, laterA), openWS(apiB, b.features, proto, laterB)
 		defer a.ws.close()
 		defer b.ws.close()
 	}
@@ -162,20 +178,53 @@ func runApifuCase(F []string, route string) sexp.Node {
 		}
 		reqs = append(reqs, rq)
 	}
+	if subs {
+		for _, q := range apifuSubscriptionDocs {
+			reqs = append(reqs, &request{kind: "doc", query: q, tags: []string{"apifu", "subscription"}})
+		}
+		for _, sd := range subscriptionDocs() {
+			reqs = append(reqs, &request{kind: "ssub", query: sd.text, sdoc: sd})
+		}
+	}
 	rs := make([]sexp.Node, len(reqs))
 	for i, rq := range reqs {
 		rs[i] = rq.sexp(a, b)
 	}
 	head = append(head, sexp.T("requests", rs...))
+	// what happened on side a, for the plumbing model: the environment, connection_init, operations
+	{
+		env := func(f graphql.FeatureSet) sexp.Node {
+			var xs []string
+			for _, x := range alphabet {
+				if f.Has(x) {
+					xs = append(xs, x)
+				}
+			}
+			return sexp.T("env", strs(xs)...)
+		}
+		hist := []sexp.Node{env(a.features)}
+		transport := "http"
+		if ws {
+			transport = "ws"
+			hist = append(hist, sexp.T("init"))
+			if subs {
+				hist = append(hist, env(all)) // laterA (F never holds every feature here)
+			}
+		}
+		for range reqs {
+			hist = append(hist, sexp.T("op"))
+		}
+		head = append(head, sexp.T("plumbing", sexp.T("transport", sexp.Sym(transport)), sexp.T("history", hist...)))
+	}
 	if !on {
 		// the Config a developer writes without the gated connection does not mention PageInfo at all
-		apiC, err := apifuAPI(false, false, logC)
+		apiC, err := apifuAPI(false, false, subs, logC)
 		if err != nil {
 			panic(err)
 		}
 		c := &side{api: apiC, features: all, log: logC}
 		if ws {
-			c.ws = openWS(apiC, all, route)
+			c.ws = openWS(apiC, all, proto, nil)
 			defer c.ws.close()
 		}
 		o := c.run("{ __schema { types { name } } }", nil)
@@ -316,6 +365,13 @@ func main() {
 			F := F
 			h.Case(func(*rng.R) sexp.Node { return runApifuCase(F, "http-persisted") })
 			h.Case(func(*rng.R) sexp.Node { return runApifuCase(F, "graphql-transport-ws") })
+		}
+		// 5. subscriptions over both WebSocket subprotocols, the answer of Config.Features changing
+		// after connection_init
+		for _, F := range subsetsOf([]string{"fa", "fb"}) {
+			F := F
+			h.Case(func(*rng.R) sexp.Node { return runApifuCase(F, "graphql-ws+subscriptions") })
+			h.Case(func(*rng.R) sexp.Node { return runApifuCase(F, "graphql-transport-ws+subscriptions") })
 		}
 	})
 }
